@@ -866,3 +866,134 @@ def nozzle_geom_clause(vals):
         bal = -(d.flux[k][1:] - d.flux[k][:-1]) / (xf[1:] - xf[:-1])
         ok = ok and close(res[k], bal - gt * fl[k])
     return ok
+
+
+# --------------------------------------------------------------------------------------
+# C05 : record what the real integrator hands to the right-hand side
+
+class _RecDisc:
+    """discretisation stub: nonlinear, time dependent RHS; records the times it is called at"""
+
+    def __init__(self, nelem):
+        self.nelem = nelem
+        self.times = []
+
+    def rhs(self, f):
+        self.times.append(f.time)
+        return [np.cos(f.time) * d - 0.3 * d ** 2 for d in f.data]
+
+
+class _M:
+    neq = 1
+    shape = [1]
+    islinear = 0
+
+
+class _Mesh:
+    def __init__(self, n):
+        self.ncell = n
+
+
+def _exact_order(integ_cls, order):
+    """observed order on dq/dt = cos(t) q - 0.3 q^2 against a fine reference"""
+    import flowdyn.field as field
+    def run(nstep, T=0.8):
+        disc = _RecDisc(2)
+        s = integ_cls(_Mesh(2), disc)
+        f = field.fdata(_M(), _Mesh(2), [np.array([1.0, 0.5])])
+        dt = T / nstep
+        for _ in range(nstep):
+            s.step(f, dt)
+        return f.data[0].copy(), f.time
+    ref, _ = run(4096)
+    e1 = np.max(np.abs(run(16)[0] - ref))
+    e2 = np.max(np.abs(run(32)[0] - ref))
+    return math.log(e1 / e2) / math.log(2.0)
+
+
+def rk_clause(vals, integrator, clause=None, stage=None, c=None, order=None):
+    import flowdyn.integration as ti, flowdyn.field as field
+    cls = getattr(ti, integrator)
+    disc = _RecDisc(2)
+    s = cls(_Mesh(2), disc)
+    f = field.fdata(_M(), _Mesh(2), [np.array([1.0, 0.5])], t=0.25)
+    dt = 0.5
+    s.step(f, dt)
+    show(integrator=integrator, clause=clause, stage_times=[(t - 0.25) / dt for t in disc.times], time_after=(f.time - 0.25) / dt)
+    if clause == "stage-time":
+        return close((disc.times[stage] - 0.25) / dt, float(Fraction(c)))
+    if clause in ("time-advances-by-dt",) or (clause or "").startswith("time-advances"):
+        return close(f.time, 0.25 + dt)
+    if clause == "order":
+        p = _exact_order(cls, order)
+        show(observed_order=p)
+        return p >= order - 0.3
+    return True
+
+
+# --------------------------------------------------------------------------------------
+# C06
+
+def _conv_setup(n=16, num="extrapol2"):
+    import flowdyn.mesh as mesh, flowdyn.modeldisc as md, flowdyn.modelphy.convection as conv, flowdyn.field as field
+    msh = mesh.unimesh(ncell=n, length=1.0)
+    model = conv.model(1.0)
+    disc = md.fvm1d(model, msh, _make_num(num))
+    q = 1.0 + 0.5 * np.sin(2 * np.pi * msh.centers()) + 0.2 * np.cos(6 * np.pi * msh.centers())
+    return msh, model, disc, field.fdata(model, msh, [q])
+
+
+def _operator(disc, model, msh):
+    import flowdyn.field as field
+    n = msh.ncell
+    Aop = np.zeros((n, n))
+    for j in range(n):
+        e = np.zeros(n)
+        e[j] = 1.0
+        Aop[:, j] = disc.rhs(field.fdata(model, msh, [e]))[0]
+    return Aop
+
+
+def implicit_clause(vals, integrator, n, neq, clause=None):
+    import flowdyn.integration as ti
+    msh, model, disc, f = _conv_setup()
+    Aop = _operator(disc, model, msh)
+    s = getattr(ti, integrator)(msh, disc)
+    q0 = f.data[0].copy()
+    dt = 0.07
+    t0 = f.time
+    s.step(f, dt)
+    I = np.eye(msh.ncell)
+    if integrator in ("implicit", "backwardeuler"):
+        ref = np.linalg.solve(I - dt * Aop, q0)
+    else:
+        ref = np.linalg.solve(I - dt / 2 * Aop, (I + dt / 2 * Aop) @ q0)
+    err = float(np.max(np.abs(f.data[0] - ref)) / np.max(np.abs(ref)))
+    show(integrator=integrator, relative_error_of_one_step=err, time_advance=(f.time - t0) / dt)
+    if clause == "time":
+        return close(f.time, t0 + dt)
+    return err <= 1e-6 and close(f.time, t0 + dt)
+
+
+def fd_step_clause(vals):
+    import flowdyn.integration as ti
+    msh, model, disc, f = _conv_setup()
+    Aop = _operator(disc, model, msh)
+    s = ti.implicit(msh, disc)
+    J = s.calc_jacobian(f)
+    err = float(np.max(np.abs(J - Aop)) / np.max(np.abs(Aop)))
+    show(relative_jacobian_error=err)
+    return err <= 1e-3 * 1e-2
+
+
+def fd_zero_clause(vals):
+    import flowdyn.mesh as mesh, flowdyn.modelphy.euler as eu, flowdyn.modeldisc as md, flowdyn.xnum as xnum, flowdyn.integration as ti
+    m = mesh.unimesh(ncell=8, length=1.)
+    model = eu.euler1d()
+    d = md.fvm1d(model, m, xnum.extrapol1(), numflux='hlle')
+    rho = 1 + 0.1 * np.sin(2 * np.pi * m.centers())
+    f = d.fdata_fromprim([rho, 0 * rho, 1 + 0 * rho])
+    s = ti.implicit(m, d)
+    J = s.calc_jacobian(f)
+    show(jacobian_finite=bool(np.all(np.isfinite(J))), case="Euler fluid at rest: momentum identically zero")
+    return bool(np.all(np.isfinite(J)))
